@@ -192,6 +192,7 @@ def _wrap_builtin(name, orig):
         return r
     builtin._sim_kind = 'builtin:' + name
     builtin._sim_orig = orig
+    builtin.__wrapped__ = orig        # introspection (inspect.signature) sees the real builtin's signature
     builtin.__name__ = getattr(orig, '__name__', name)
     return builtin
 
